@@ -400,7 +400,39 @@ func meshHistories3(r *vlib.Run) {
 		wasFast := false
 		crossed := false
 		muts := 0
+		// forks: shallow and deep copies taken mid-history continue as independent
+		// meshes with their own models; an edit of one must never show in another
+		type fork struct {
+			m   *model3d.Mesh
+			mod *model3
+		}
+		forks := []*fork{{mesh, mod}}
 		for s := 0; s < steps; s++ {
+			cur := forks[rng.Intn(len(forks))]
+			mesh, mod = cur.m, cur.mod
+			hist = append(hist, fmt.Sprintf("@mesh%d", indexOfFork(len(forks), func(i int) bool { return forks[i] == cur })))
+			if len(forks) < 3 && rng.Intn(12) == 0 {
+				var nm *model3d.Mesh
+				nmod := &model3{}
+				if rng.Intn(3) == 0 {
+					// deep copy: fresh pointers, same coordinates, in the same order as the model
+					nm = model3d.NewMesh()
+					for _, f := range mod.faces {
+						g := *f
+						nm.Add(&g)
+						nmod.faces = append(nmod.faces, &g)
+					}
+					nm = nm.Copy()
+					hist = append(hist, "fork(NewMesh+Copy)")
+				} else {
+					nm = mesh.Copy()
+					nmod.faces = append(nmod.faces, mod.faces...)
+					hist = append(hist, "fork(Copy)")
+				}
+				forks = append(forks, &fork{nm, nmod})
+				c.Count("mesh3d.forks", 1)
+				continue
+			}
 			op := rng.Intn(20)
 			switch {
 			case op < 7:
@@ -478,11 +510,23 @@ func meshHistories3(r *vlib.Run) {
 					crossed = true
 				}
 			}
-			if !compare3(c, mesh, mod, pool, &hist, rng, false) {
-				return
+			for _, fk := range forks {
+				if !compare3(c, fk.m, fk.mod, pool, &hist, rng, false) {
+					return
+				}
+			}
+			if len(forks) > 1 && s%4 == 0 {
+				for _, fk := range forks {
+					if fk != cur && fk.m.VerifIndexBuilt() && !compare3(c, fk.m, fk.mod, pool, &hist, rng, true) {
+						return
+					}
+				}
 			}
 		}
-		compare3(c, mesh, mod, pool, &hist, rng, true)
+		for _, fk := range forks {
+			compare3(c, fk.m, fk.mod, pool, &hist, rng, true)
+		}
+		mesh, mod = forks[0].m, forks[0].mod
 		c.Count("mesh3d.histories", 1)
 		c.Count("mesh3d.operations", int64(len(hist)))
 		c.Count("mesh3d.pool."+kind, 1)
@@ -622,4 +666,13 @@ func derivedLaws3(r *vlib.Run) {
 			c.Nontrivial(fmt.Sprint(fmtFaces(mod.faces)))
 		}
 	})
+}
+
+func indexOfFork(n int, is func(int) bool) int {
+	for i := 0; i < n; i++ {
+		if is(i) {
+			return i
+		}
+	}
+	return -1
 }
